@@ -7,6 +7,14 @@
 //	    scripted block counter and event channel), then resolveGroupOperators on its result.
 //	    mykey: k<i> | nil ; evkey: k<i> | z<i> (last byte flipped) | t<i> (truncated) | e (empty) |
 //	    `-` = no event at all; order: e = event delivered first, t = timeout block first.
+//	dkg <N> <honest> <diverging> <lost>
+//	    the composition the property is about: a full run of the REAL ExecuteDKG for every member
+//	    of an N-group on the local chain / local network (every seat its own operator key), in
+//	    which member <diverging> never receives the last GJKR message (phase 10) of member <lost>
+//	    (0 0 = nobody loses anything).  The diverging member's local view then lists <lost> as
+//	    inactive, its result is unsupported, its publication fails and ExecuteDKG takes the
+//	    decideMemberFate branch.  Obs: mis=<misbehaved of the chain-accepted result|none>
+//	    <idx>:ok:<group operators as seat labels> | <idx>:err   (not predicted by the model: SKIP)
 //	resolve <N> <honest> <selected> <ids>
 //	    resolveGroupOperators alone on arbitrary id lists.
 //
@@ -17,9 +25,14 @@ package main
 
 import (
 	"context"
+	"crypto/rand"
 	"fmt"
+	"math"
 	"math/big"
+	"os"
+	"sort"
 	"strings"
+	"sync"
 	"time"
 
 	"keepverif/harness/hx"
@@ -32,8 +45,137 @@ import (
 	"github.com/keep-network/keep-core/pkg/beacon/event"
 	"github.com/keep-network/keep-core/pkg/beacon/gjkr"
 	"github.com/keep-network/keep-core/pkg/chain"
+	"github.com/keep-network/keep-core/pkg/chain/local_v1"
+	"github.com/keep-network/keep-core/pkg/net"
+	netlocal "github.com/keep-network/keep-core/pkg/net/local"
+	"github.com/keep-network/keep-core/pkg/operator"
 	"github.com/keep-network/keep-core/pkg/protocol/group"
 )
+
+type nolog struct{}
+
+func (nolog) Debug(...interface{})          {}
+func (nolog) Debugf(string, ...interface{}) {}
+func (nolog) Error(...interface{})          {}
+func (nolog) Errorf(string, ...interface{}) {}
+func (nolog) Fatal(...interface{})          {}
+func (nolog) Fatalf(string, ...interface{}) {}
+func (nolog) Info(...interface{})           {}
+func (nolog) Infof(string, ...interface{})  {}
+func (nolog) Panic(...interface{})          {}
+func (nolog) Panicf(string, ...interface{}) {}
+func (nolog) Warn(...interface{})           {}
+func (nolog) Warnf(string, ...interface{})  {}
+
+// lossyChannel drops what `lose` selects from the messages one member receives.
+type lossyChannel struct {
+	net.BroadcastChannel
+	lose func(net.Message) bool
+}
+
+func (c *lossyChannel) Recv(ctx context.Context, handler func(net.Message)) {
+	c.BroadcastChannel.Recv(ctx, func(m net.Message) {
+		if c.lose(m) {
+			return
+		}
+		handler(m)
+	})
+}
+
+// fullDKG runs ExecuteDKG for every member of an n-group; returns the observation line.
+func fullDKG(n, honest, diverging, lost int) string {
+	seed, err := rand.Int(rand.Reader, big.NewInt(math.MaxInt64))
+	if err != nil {
+		panic(err)
+	}
+	// One operator key holds every seat (as in the repository's own DKG tests): result
+	// signatures are made with the chain handle's key and must match the network key of the
+	// sender, and the local chain's state is not shared between handles. The operator list is
+	// therefore n copies of one address; its LENGTH and the member's fate are what is observed.
+	chainKey, pub, err := operator.GenerateKeyPair(local_v1.DefaultCurve)
+	if err != nil {
+		panic(err)
+	}
+	localChain := local_v1.ConnectWithKey(n, honest, chainKey)
+	addr, err := localChain.Signing().PublicKeyToAddress(pub)
+	if err != nil {
+		panic(err)
+	}
+	selected := make([]chain.Address, n)
+	label := map[chain.Address]string{addr: "op"}
+	channels := make([]net.BroadcastChannel, n)
+	shared, err := netlocal.ConnectWithKey(pub).BroadcastChannelFor(fmt.Sprintf("verif-c05-%v", seed))
+	if err != nil {
+		panic(err)
+	}
+	for i := 0; i < n; i++ {
+		selected[i] = addr
+		channels[i] = shared
+	}
+	if diverging >= 1 && diverging <= n {
+		channels[diverging-1] = &lossyChannel{BroadcastChannel: channels[diverging-1], lose: func(m net.Message) bool {
+			reveal, ok := m.Payload().(*gjkr.MisbehavedEphemeralKeysMessage)
+			return ok && int(reveal.SenderID()) == lost
+		}}
+	}
+	blockCounter, err := localChain.BlockCounter()
+	if err != nil {
+		panic(err)
+	}
+	cur, _ := blockCounter.CurrentBlock()
+	validator := group.NewMembershipValidator(nolog{}, selected, localChain.Signing())
+	type res struct {
+		signer *dkg.ThresholdSigner
+		err    error
+	}
+	results := make([]res, n)
+	var wg sync.WaitGroup
+	for i := 1; i <= n; i++ {
+		wg.Add(1)
+		go func(i int) {
+			defer wg.Done()
+			defer func() {
+				if e := recover(); e != nil {
+					results[i-1] = res{nil, fmt.Errorf("PANIC %v", e)}
+				}
+			}()
+			s, err := dkg.ExecuteDKG(nolog{}, seed, group.MemberIndex(i), cur+3, localChain, channels[i-1], validator, selected)
+			results[i-1] = res{s, err}
+		}(i)
+	}
+	wg.Wait()
+	mis := "none"
+	if accepted, _ := localChain.GetLastDKGResult(); accepted != nil {
+		ms := append([]uint8(nil), accepted.Misbehaved...)
+		sort.Slice(ms, func(a, b int) bool { return ms[a] < ms[b] })
+		mis = hx.JoinInts(ms)
+	}
+	out := []string{"mis=" + mis}
+	for i, r := range results {
+		if r.err != nil || r.signer == nil {
+			c := "err"
+			if r.err != nil && strings.HasPrefix(r.err.Error(), "PANIC") {
+				c = "PANIC"
+			}
+			if os.Getenv("VERIF_C05_DEBUG") != "" {
+				fmt.Fprintf(os.Stderr, "member %d: %v\n", i+1, r.err)
+			}
+			out = append(out, fmt.Sprintf("%d:%s", i+1, c))
+			continue
+		}
+		var ls []string
+		for _, a := range r.signer.GroupOperators() {
+			l, ok := label[a]
+			if !ok {
+				l = "unknown"
+			}
+			ls = append(ls, l)
+		}
+		out = append(out, fmt.Sprintf("%d:ok:%s", i+1, hx.JoinStrs(ls)))
+	}
+	return strings.Join(out, " ")
+}
+
 
 type fakeBC struct {
 	awaited chan uint64
@@ -262,6 +404,18 @@ func exec(op string) (string, string) {
 			tag += "+" + strings.TrimPrefix(o, "err:")
 		}
 		return pre + o, tag
+	case len(f) == 5 && f[0] == "dkg":
+		n, honest, d, l := hx.Atoi(f[1]), hx.Atoi(f[2]), hx.Atoi(f[3]), hx.Atoi(f[4])
+		if n < 2 || n > 16 || honest < 1 || honest > n {
+			return "bad-op", "bad"
+		}
+		obs := fullDKG(n, honest, d, l)
+		tag := "dkg"
+		// the diverging member stayed although the chain's result does not list <lost>
+		if d >= 1 && d <= n && strings.Contains(obs, fmt.Sprintf(" %d:ok:", d)) && strings.HasPrefix(obs, "mis=- ") {
+			tag += "+diverged"
+		}
+		return obs, tag
 	case len(f) == 5 && f[0] == "resolve":
 		n, honest := hx.Atoi(f[1]), hx.Atoi(f[2])
 		var ids []group.MemberIndex
@@ -297,6 +451,17 @@ func selected(r *hx.Rng, n int) string {
 
 func gen(r *hx.Rng, n int, tier string) []string {
 	var ops []string
+	if tier == "thorough" { // full ExecuteDKG runs are slow (real-time local chain): a handful
+		for i := 0; i < 3; i++ {
+			N := r.Range(3, 5)
+			d := r.Range(1, N)
+			l := r.Range(1, N)
+			for l == d {
+				l = r.Range(1, N)
+			}
+			ops = append(ops, fmt.Sprintf("dkg %d %d %d %d", N, N/2+1, d, l))
+		}
+	}
 	for i := 0; i < n; i++ {
 		N := r.Range(1, 9)
 		if r.Chance(1, 12) {
@@ -425,6 +590,7 @@ func main() {
 		Prop: "C05",
 		Gen:  gen,
 		Exec: exec,
+		PerOpTimeout: 300 * time.Second,
 		Facts: func() []string {
 			return []string{fmt.Sprintf("nat prePublicationBlocks %d", dkgresult.PrePublicationBlocks())}
 		},
